@@ -113,7 +113,12 @@ func init() {
 			trailers[0].v = []string{"disk failure\r\ngrpc-status: 0"}
 			c.Attr("~trailer-value", "contains CR LF")
 		}
-		style := c.Choose("trailer-style", 4) // 0 TrailerPrefix, 1 declared (canonical, one per line), 2 declared in lower case, 3 declared as one "A, B" list
+		style := c.Choose("trailer-style", 5) // 0 TrailerPrefix, 1 declared (canonical, one per line), 2 declared in lower case, 3 declared as one "A, B" list, 4 TrailerPrefix with the name in lower case
+		lowerPrefix := style == 4
+		if lowerPrefix {
+			style = 0
+			c.Attr("~trailer-names", "lower case under http.TrailerPrefix")
+		}
 		dup := false
 		for _, t := range trailers {
 			for _, h := range respH {
@@ -199,6 +204,17 @@ func init() {
 						rep.LowerCaseTrailerDecl = style == 2
 						rep.TrailerDeclList = style == 3
 					}
+				}
+			}
+		}
+		if lowerPrefix {
+			inner := call.Mutate
+			call.Mutate = func(sr *wire.ServerResp, rep *world.Reply) {
+				if inner != nil {
+					inner(sr, rep)
+				}
+				if sr == nil {
+					rep.LowerCasePrefixTrailers = true
 				}
 			}
 		}
